@@ -168,6 +168,43 @@ fn main() {
                 }
             }
         }
+        // text corner cases: a backslash inside the VRs that are never multi-valued, empty middle values, leading spaces,
+        // values ending in '0' next to the padding, odd lengths
+        for vr in [VR::LT, VR::ST, VR::UT] {
+            if let Some(tag) = tag_for(vr) {
+                for s in ["A\\B", "line one\\line two\\", "  leading", "x\\"] {
+                    t.cases += 1;
+                    let v = PrimitiveValue::Str(s.to_string());
+                    let de = DataElementHeader { tag, vr, len: Length(0) };
+                    let mut out = Vec::new();
+                    { let enc = ts.encoder_for::<&mut Vec<u8>>().unwrap(); let mut e = StatefulEncoder::new(&mut out, enc, SpecificCharacterSet::default()); if e.encode_primitive_element(&de, &v).is_err() { t.fail(format!("{} VR {} Str {:?}: writing failed", name, vr.to_string(), s)); continue; } }
+                    let mut d = StatefulDecoder::new_with(&out[..], ts, SpecificCharacterSet::default(), 0).unwrap();
+                    let back = d.decode_header().ok().and_then(|h| d.read_value(&h).ok());
+                    let ok = match &back { Some(b) => b.multiplicity() <= 1 && b.to_str().trim_end_matches(' ') == s.trim_end_matches(' '), None => false };
+                    if !ok { t.fail(format!("{} VR {} Str {:?}: read back {:?} (a backslash is part of the text in this VR; leading spaces are significant)", name, vr.to_string(), s, back)); }
+                }
+            }
+        }
+        for vr in [VR::LO, VR::SH, VR::CS, VR::PN, VR::UI, VR::AE] {
+            if let Some(tag) = tag_for(vr) {
+                for vals in [vec!["A", "", "B"], vec!["", "B"], vec!["A", ""], vec!["10", "20", "30"], vec!["1.2.30", "1.2.300"], vec!["A0"], vec!["100"]] {
+                    round_trip(&mut t, ts, name, tag, vr, &PrimitiveValue::Strs(C::from_vec(vals.iter().map(|x| x.to_string()).collect())), true, &format!("Strs {:?}", vals));
+                    // item-wise: the number of values and each value must survive (not only the joined text)
+                    t.cases += 1;
+                    let v = PrimitiveValue::Strs(C::from_vec(vals.iter().map(|x| x.to_string()).collect()));
+                    let de = DataElementHeader { tag, vr, len: Length(0) };
+                    let mut out = Vec::new();
+                    { let enc = ts.encoder_for::<&mut Vec<u8>>().unwrap(); let mut e = StatefulEncoder::new(&mut out, enc, SpecificCharacterSet::default()); if e.encode_primitive_element(&de, &v).is_err() { t.fail(format!("{} VR {} Strs {:?}: writing failed", name, vr.to_string(), vals)); continue; } }
+                    let mut d = StatefulDecoder::new_with(&out[..], ts, SpecificCharacterSet::default(), 0).unwrap();
+                    let back = d.decode_header().ok().and_then(|h| d.read_value(&h).ok());
+                    let items: Option<Vec<String>> = back.as_ref().map(|b| b.to_multi_str().iter().map(|x| x.trim_end_matches(|c| c == ' ' || c == '\0').to_string()).collect());
+                    let want: Vec<String> = vals.iter().map(|x| x.to_string()).collect();
+                    // a trailing empty value cannot be told from padding: compare up to trailing empties
+                    let strip = |mut v: Vec<String>| { while v.last().map_or(false, |x| x.is_empty()) { v.pop(); } v };
+                    if items.clone().map(strip) != Some(strip(want.clone())) { t.fail(format!("{} VR {} Strs {:?}: read back as {:?}", name, vr.to_string(), vals, items)); }
+                }
+            }
+        }
         for vr in [VR::IS, VR::DS] {
             if let Some(tag) = tag_for(vr) {
                 for s in ["7", "12", "-123", "1\\22\\333"] { round_trip(&mut t, ts, name, tag, vr, &PrimitiveValue::Str(s.to_string()), true, &format!("Str {:?}", s)); }
